@@ -2,6 +2,7 @@
 from .lib import api, absint, composite
 from .lib.absint import fmt_val, fmt_loc, subterms
 from .lib.facts import AnalysisError
+from .lib.routing import outer_enters
 
 LEVEL = "other"
 EXPLANATION = (
@@ -141,7 +142,7 @@ def rawlru_clone(cx, chk, cfg, F, f):
             chk.violation("C16.R2", "%s|on_evict" % f["q"], "the clone's callback is %s, not a clone of self.on_evict" % fmt_val(vals["on_evict"])[:60],
                           f["span"]["file"], f["span"]["lo"], f["q"], None, cfg)
         # R2: enumeration order
-        iters = [e for e in p.events if e["ev"] == "enter" and e["depth"] == 0 and isinstance(e["args"][0] if e["args"] else None, tuple)
+        iters = [e for e in outer_enters(p, lambda e: e["q"].startswith(RAW + "::")) if isinstance(e["args"][0] if e["args"] else None, tuple)
                  and e["args"][0] == ("param", 1, True) and e["q"].startswith(RAW + "::") and ("iter" in e["q"].split("::")[-1] or e["q"].split("::")[-1] in ("keys", "values", "keys_lru", "values_lru"))]
         nexts = [e for e in p.events if e["ev"] == "enter" and e["q"].split("::")[-1] in ("next", "next_back") and "Iter" in e["q"]]
         puts = [e for e in p.events if e["ev"] == "enter" and e["q"].endswith("::put") and RAW in e["q"]]
